@@ -88,11 +88,35 @@ while True:
         w.body = flat
         return new
 
+class MathShim:
+    """stands for the `math` module in a rewritten function: concrete arguments go to the real module; proxies get contracts
+    (over-approximations: they can only make a proof fail, never pass wrongly).
+    gcd(a, b) on proxies: a fresh g >= 0 with a == g*ka, b == g*kb (maximality is not asserted)."""
+    def __getattr__(self, name):
+        import math
+        return getattr(math, name)
+    def gcd(self, *args):
+        import math
+        if all(isinstance(a, int) for a in args): return math.gcd(*args)
+        k = [0]
+        def fresh(n):
+            MathShim._n = getattr(MathShim, "_n", 0) + 1; return z3.Int(f"{n}!m{MathShim._n}")
+        g = fresh("gcd"); symx.CTX.assume(SymBool(g >= 0))
+        for a in args:
+            at = a.t if isinstance(a, SymInt) else z3.IntVal(int(a))
+            if at.sort() != z3.IntSort(): raise TypeError("gcd of a non-integer proxy")
+            ka = fresh("gcdk"); symx.CTX.assume(SymBool(at == g * ka))
+            symx.CTX.assume(SymBool(z3.Implies(at != 0, g >= 1)))
+        return SymInt(g)
+
 def rewrite(fn, specs, vc, extra_globals=None):
     src = textwrap.dedent(inspect.getsource(fn))
     tree = ast.parse(src)
     tree = Cutter(specs).visit(tree); ast.fix_missing_locations(tree)
     g = dict(fn.__globals__); g["__vc"] = vc
+    import math as _math
+    for k_, v_ in list(g.items()):
+        if v_ is _math: g[k_] = MathShim()
     if extra_globals: g.update(extra_globals)
     exec(compile(tree, f"<cut:{fn.__qualname__}>", "exec"), g)
     return g[fn.__name__], ast.unparse(tree)
